@@ -560,4 +560,16 @@ theorem poll_nAlloc (u : User) (s : St) (ev : PollEv) (reads : List Outcome) :
   repeat' split
   all_goals first | (simp only [emit]; first | exact h _ | omega) | exact h _ | omega
 
+/-- number of alloc_cb calls in a trace -/
+def allocCount : List Ev → Nat
+  | [] => 0
+  | .alloc _ _ :: t => allocCount t + 1
+  | _ :: t => allocCount t
+
+theorem fold_nAl (l : List Ev) : ∀ m : Mon, (l.foldl Mon.step m).nAl = m.nAl + allocCount l := by
+  induction l with
+  | nil => intro m; simp [allocCount]
+  | cons e t ih => intro m; cases e <;> simp [ih, Mon.step, allocCount] <;> omega
+
+
 end UvModel.StreamR
